@@ -9,22 +9,34 @@ open ClockBound
 theorem exact_or_refused (r : Nat) :
     (driftPpb (some r) = some (1000 * r) ∧ 1000 * r < 4294967296) ∨
     (driftPpb (some r) = none ∧ 1000 * r ≥ 4294967296) := by
-  sorry
+  simp only [driftPpb]
+  by_cases h : r * 1000 < 4294967296
+  · left; rw [if_pos h]; exact ⟨by rw [Nat.mul_comm], by omega⟩
+  · right; rw [if_neg h]; exact ⟨rfl, by omega⟩
 
 /-- never a wrapped value -/
 theorem never_wrapped (r p : Nat) (h : driftPpb (some r) = some p) : p = 1000 * r ∧ p < 4294967296 := by
-  sorry
+  rcases exact_or_refused r with ⟨h1, h2⟩ | ⟨h1, _⟩
+  · rw [h1] at h; cases h; exact ⟨rfl, h2⟩
+  · rw [h1] at h; cases h
 
 theorem default_one_ppm : driftPpb none = some 1000 := by
-  sorry
+  rfl
 
 /-- the value reaches every published record -/
 theorem published (arg : Option Nat) (p : Nat) (h : driftPpb arg = some p) (msgs : List Msg) :
     ∀ r ∈ Updater.run (Updater.new p) msgs, r.drift = p := by
-  sorry
+  have _ := h
+  intro r hr
+  exact (Updater.run_drift_void (Updater.new p) msgs r hr).1
 
 theorem model_holds (arg : Option Nat) : Holds arg (driftPpb arg) = true := by
-  sorry
+  cases arg with
+  | none => rfl
+  | some r =>
+    rcases exact_or_refused r with ⟨h1, _⟩ | ⟨h1, h2⟩
+    · rw [h1]; simp [Holds]
+    · rw [h1]; simp only [Holds, decide_eq_true_eq]; exact h2
 
 example : driftPpb (some 4294968) = none := by decide
 example : driftPpb (some 4294967) = some 4294967000 := by decide
